@@ -944,11 +944,15 @@ class Program:
         self.unsafe = {}
         self.crates = []
 
-    def load(self, f):
+    def load(self, f, alias=None):
         crate = None
         ended = False
         with open(f) as fh:
             for line in fh:
+                if alias:
+                    for new, old in alias:
+                        if new in line:
+                            line = re.sub(re.escape(new) + r'(?![A-Za-z0-9_])', old, line)
                 d = json.loads(line)
                 if d.get('meta'):
                     crate = d['crate']
@@ -1087,11 +1091,43 @@ class Program:
         return self.promoted(body, o['promoted'], o.get('phome'))
 
 
+def moved_types(files):
+    """a type that was moved to another module of its crate keeps its old path for the rules: a type whose path is not
+    in known_adts.txt, with exactly one known-but-absent type of the same name in the same crate (and no sibling
+    candidate), is that type.  Returns [(new path, old path)]; applied textually while loading."""
+    import os
+    kf = os.path.join(os.path.dirname(os.path.abspath(__file__)), 'known_adts.txt')
+    if not os.path.exists(kf):
+        return []
+    known = set(l.strip() for l in open(kf) if l.strip())
+    present = set()
+    for f in files:
+        with open(f) as fh:
+            for line in fh:
+                if line.startswith('{"adt"'):
+                    present.add(norm(json.loads(line)['adt']))
+    if not any(a.split('::')[0] in ('rodbus', 'rodbus_ffi') for a in present):
+        return []
+    crates = {a.split('::')[0] for a in present}
+    new = [a for a in present if a not in known and a.split('::')[0] in ('rodbus', 'rodbus_ffi') and '<' not in a]
+    gone = [a for a in known if a not in present and a.split('::')[0] in crates]
+    out = []
+    for a in new:
+        leaf = a.rsplit('::', 1)[-1]
+        c = [g for g in gone if g.rsplit('::', 1)[-1] == leaf and g.split('::')[0] == a.split('::')[0]]
+        sib = [x for x in new if x.rsplit('::', 1)[-1] == leaf]
+        if len(c) == 1 and len(sib) == 1:
+            out.append((a, c[0]))
+    return out
+
+
 def load(files, view=True):
     """load fact files; with view=True unknown helper functions are inlined into their callers (see inline.py)"""
     p = Program()
+    alias = moved_types(files) if view else None
     for f in files:
-        p.load(f)
+        p.load(f, alias)
+    p.moved_types = alias or []
     if view:
         import inline
         inline.apply(p)
